@@ -90,6 +90,40 @@ pub fn run(ctx: &Ctx) -> Report {
         a.nontrivial += n;
         acc2 = acc2.merge(a);
     }
+    // payloads of other protocols in a DATA-like value (a relayed HTTP / SIP / RTSP header block, CR LF CR LF
+    // keep-alives, a TLS record, a ChannelData header, runs of 00 / FF), of every length class modulo 4,
+    // alone / followed by FINGERPRINT / by a further attribute: every cut
+    {
+        let payloads: Vec<Vec<u8>> = vec![
+            b"GET / HTTP/1.1\r\nHost: a\r\n\r\n".to_vec(), b"OPTIONS sip:a SIP/2.0\r\n\r\n".to_vec(), b"\r\n\r\n".to_vec(), b"\r\n".to_vec(), b"x\r\n\r\n".to_vec(), b"xy\r\n\r\n".to_vec(), b"xyz\r\n\r\n".to_vec(),
+            b"\r\n\r\n\r\n\r\n\r\n\r\n".to_vec(), b"\n\n".to_vec(), b"\r\n\r\nabc".to_vec(), vec![0x16, 0x03, 0x03, 0x00, 0x04, 1, 2, 3, 4], vec![0x40, 0x00, 0x00, 0x04, 9, 9, 9, 9], vec![0; 9], vec![0xFF; 10], b"\0\0\0\0".to_vec(), b"STUN".to_vec(),
+        ];
+        let mut msgs: Vec<Vec<u8>> = Vec::new();
+        for pl in &payloads {
+            for tail in 0..3u8 {
+                for lead in [false, true] {
+                    let mut b = wire::encode_header(1, 0x007, 0x5A5B_5C5D_5E5F_6061_6263_6465, 0);
+                    if lead {
+                        wire::append_raw(&mut b, 0x0012, &[0, 1, 0x21, 0x12, 0x21 ^ 10, 0x12, 0xA4, 0x43]);
+                    }
+                    wire::append_raw(&mut b, 0x0013, pl);
+                    match tail {
+                        1 => wire::append_fp(&mut b),
+                        2 => wire::append_raw(&mut b, 0x8022, b"\r\n\r\n"),
+                        _ => {}
+                    }
+                    if wire::decode(&b).is_ok() {
+                        msgs.push(b);
+                    }
+                }
+            }
+        }
+        let cases: Vec<Case> = msgs.iter().flat_map(|b| (0..b.len()).map(move |k| Case::new("prefix", b.clone()).args(&[k as i64]))).collect();
+        let n = msgs.len() as u64;
+        let mut a = sweep(cases.into_par_iter(), judge);
+        a.nontrivial += n;
+        acc2 = acc2.merge(a);
+    }
     // messages that carry a message (a relayed STUN message in a DATA-like attribute, with and
     // without integrity / FINGERPRINT) or values that read as a sealing attribute / STUN header:
     // a prefix may end exactly on an embedded FINGERPRINT, inside an embedded MESSAGE-INTEGRITY ...
@@ -299,7 +333,7 @@ pub fn run(ctx: &Ctx) -> Report {
     Report {
         acc,
         exhaustive: true,
-        rule: "messages with a MESSAGE-INTEGRITY-SHA256 of 16 / 20 / 24 / 28 / 32 bytes in three positions x three tails at every cut; every declared length (every multiple of 4 in 0..=65 532) under two attribute layouts (value-less attributes: an attribute ends at every multiple of 4; an address attribute + one DATA attribute), cut at every point below 1100, at 20 + the byte-swapped / halved / single-bit-flipped / high-byte / low-byte length and in the last 8 bytes; every well-formed message of the skeleton space (x4 header variants, one per class), all 16 384 (class, method) pairs x five small bodies (unaligned / empty / aligned last attribute, FINGERPRINT), messages of 1..=70 / 100 / 129 / 257 / 1025 attributes, 144 messages carrying a relayed STUN message or a value that reads as a sealing attribute at four alignments, and 10 builder-made messages with attribute lengths up to 763 x every cut point 0..len; 5 messages of 4 KiB .. 65 552 bytes x cut points {0..=300, last 300, powers of two +-1, every 251st}; header decoder on all 65536 type fields x 7 length fields x cookie ok/off, all 65536 length fields x 3 types, every cookie bit, walking-one / walking-zero / byte-lane transaction ids; distinct_nontrivial counts the well-formed messages".into(),
+        rule: "messages relaying payloads of other protocols (HTTP / SIP header blocks, CR LF CR LF keep-alives, TLS / ChannelData headers, runs of 00 / FF) at every cut; messages with a MESSAGE-INTEGRITY-SHA256 of 16 / 20 / 24 / 28 / 32 bytes in three positions x three tails at every cut; every declared length (every multiple of 4 in 0..=65 532) under two attribute layouts (value-less attributes: an attribute ends at every multiple of 4; an address attribute + one DATA attribute), cut at every point below 1100, at 20 + the byte-swapped / halved / single-bit-flipped / high-byte / low-byte length and in the last 8 bytes; every well-formed message of the skeleton space (x4 header variants, one per class), all 16 384 (class, method) pairs x five small bodies (unaligned / empty / aligned last attribute, FINGERPRINT), messages of 1..=70 / 100 / 129 / 257 / 1025 attributes, 144 messages carrying a relayed STUN message or a value that reads as a sealing attribute at four alignments, and 10 builder-made messages with attribute lengths up to 763 x every cut point 0..len; 5 messages of 4 KiB .. 65 552 bytes x cut points {0..=300, last 300, powers of two +-1, every 251st}; header decoder on all 65536 type fields x 7 length fields x cookie ok/off, all 65536 length fields x 3 types, every cookie bit, walking-one / walking-zero / byte-lane transaction ids; distinct_nontrivial counts the well-formed messages".into(),
         bounds: json!({"skeletons": sk.len(), "cut_points": "all", "header_space": 65536 * 14}),
         assumptions: vec![],
         ..Default::default()
